@@ -25,7 +25,14 @@ CallK(nm, kw, modes) == Stmt(nm, TRUE, <<>>, kw, modes, "sq")
 SubF == Sc("sub", <<>>, <<Stmt("A", TRUE, <<FL(1, 2)>>, <<>>, <<I(8)>>, "none"), Stmt("B", FALSE, <<>>, <<>>, <<I(1), I(3)>>, "sq"),
                           Stmt("C", TRUE, <<>>, <<Kw("k", I(2))>>, <<I(3)>>, "none"), Stmt("A", TRUE, <<FL(3, 2)>>, <<>>, <<I(1)>>, "none")>>)
 TSubF == Sc("tsub", <<>>, <<Stmt("R", TRUE, <<Par("phi")>>, <<>>, <<I(1)>>, "none"),
-                            Stmt("S", TRUE, <<Bin("*", Par("phi"), I(2)), Par("th")>>, <<Kw("g", Par("th"))>>, <<I(0), I(1)>>, "sq")>>)
+                            Stmt("S", TRUE, <<Bin("*", Par("phi"), I(2)), Par("th")>>, <<Kw("g", Par("th"))>>, <<I(0), I(1)>>, "sq"),
+                            Stmt("T2", TRUE, <<Bin("+", Bin("*", I(2), Par("phi")), Par("th"))>>, <<>>, <<I(0)>>, "none")>>)
+\* two different files that are both written as "common.xbb" in the include line of their including file
+CommonTopF == Sc("Common", <<>>, <<Stmt("Ct", FALSE, <<>>, <<>>, <<I(0), I(1)>>, "sq"), Stmt("Cu", TRUE, <<FL(1, 2)>>, <<>>, <<I(1)>>, "none")>>)
+CommonLibF == Sc("CommonLib", <<>>, <<Stmt("Cl", TRUE, <<I(7)>>, <<>>, <<I(4)>>, "none")>>)
+ChipF == Sc("chip", <<Rel(<<>>, "common.xbb")>>, <<Stmt("Hc", FALSE, <<>>, <<>>, <<I(0)>>, "none"), Call("CommonLib", <<I(2)>>)>>)
+CommonLib2F == Sc("Common", <<>>, <<Stmt("Cl2", TRUE, <<I(9)>>, <<>>, <<I(5)>>, "none")>>)       \* same program NAME as the top-level one
+Chip2F == Sc("chip2", <<Rel(<<>>, "common.xbb")>>, <<Call("Common", <<I(3)>>), Stmt("Hd", FALSE, <<>>, <<>>, <<I(1)>>, "none")>>)
 InnerF == Sc("inner", <<>>, <<Stmt("D", FALSE, <<>>, <<>>, <<I(9)>>, "none"), Stmt("E", TRUE, <<FL(3, 2)>>, <<>>, <<I(0), I(9)>>, "sq")>>)
 OuterF == Sc("outer", <<Rel(<<"sub">>, "inner.xbb")>>, <<Call("inner", <<I(4), I(2)>>), Stmt("Fg", FALSE, <<>>, <<>>, <<I(2)>>, "none"), Call("inner", <<I(2), I(4)>>)>>)
 UtilF == Sc("util", <<Rel(<<"..", "w", "sub">>, "inner.xbb")>>, <<Stmt("U", TRUE, <<I(1)>>, <<>>, <<I(0)>>, "none"), Call("inner", <<I(0), I(5)>>)>>)
@@ -34,26 +41,44 @@ FS7(f) == CASE f = [dirs |-> W, file |-> "sub.xbb"] -> SubF
             [] f = [dirs |-> W \o <<"sub">>, file |-> "inner.xbb"] -> InnerF
             [] f = [dirs |-> W, file |-> "outer.xbb"] -> OuterF
             [] f = [dirs |-> <<"ROOT", "lib">>, file |-> "util.xbb"] -> UtilF
+            [] f = [dirs |-> W, file |-> "common.xbb"] -> CommonTopF
+            [] f = [dirs |-> W \o <<"lib">>, file |-> "common.xbb"] -> CommonLibF
+            [] f = [dirs |-> W \o <<"lib">>, file |-> "chip.xbb"] -> ChipF
+            [] f = [dirs |-> W \o <<"lib2">>, file |-> "common.xbb"] -> CommonLib2F
+            [] f = [dirs |-> W \o <<"lib2">>, file |-> "chip2.xbb"] -> Chip2F
             [] OTHER -> NoFile
 Files == << [path |-> [dirs |-> W, file |-> "sub.xbb"], s |-> SubF], [path |-> [dirs |-> W, file |-> "tsub.xbb"], s |-> TSubF],
             [path |-> [dirs |-> W \o <<"sub">>, file |-> "inner.xbb"], s |-> InnerF], [path |-> [dirs |-> W, file |-> "outer.xbb"], s |-> OuterF],
-            [path |-> [dirs |-> <<"ROOT", "lib">>, file |-> "util.xbb"], s |-> UtilF] >>
+            [path |-> [dirs |-> <<"ROOT", "lib">>, file |-> "util.xbb"], s |-> UtilF],
+            [path |-> [dirs |-> W, file |-> "common.xbb"], s |-> CommonTopF], [path |-> [dirs |-> W \o <<"lib">>, file |-> "common.xbb"], s |-> CommonLibF],
+            [path |-> [dirs |-> W \o <<"lib">>, file |-> "chip.xbb"], s |-> ChipF], [path |-> [dirs |-> W \o <<"lib2">>, file |-> "common.xbb"], s |-> CommonLib2F],
+            [path |-> [dirs |-> W \o <<"lib2">>, file |-> "chip2.xbb"], s |-> Chip2F] >>
 
 Mains == { Sc("m1", <<Rel(<<>>, "sub.xbb")>>, <<>>),
            Sc("m2", <<Rel(<<>>, "sub.xbb"), Rel(<<>>, "tsub.xbb")>>, <<>>),
            Sc("m3", <<Rel(<<>>, "outer.xbb")>>, <<>>),                                  \* nested: inner becomes visible too
            Sc("m4", <<Rel(<<>>, "sub.xbb"), Rel(<<>>, "tsub.xbb"), Rel(<<>>, "sub.xbb")>>, <<>>),   \* repeated include line
            Sc("m5", <<AbsP(W, "tsub.xbb"), Rel(<<"..", "lib">>, "util.xbb")>>, <<>>),     \* absolute path, sibling directory, nested via ..
-           Sc("m6", <<Rel(<<"sub">>, "inner.xbb"), Rel(<<>>, "outer.xbb")>>, <<>>) }
-Items == { Call("sub", <<I(0), I(1), I(2)>>), Call("sub", <<I(5), I(4), I(7)>>),
+           Sc("m6", <<Rel(<<"sub">>, "inner.xbb"), Rel(<<>>, "outer.xbb")>>, <<>>),
+           Sc("m7", <<Rel(<<"lib">>, "chip.xbb"), Rel(<<>>, "common.xbb")>>, <<>>),      \* nested "common.xbb" and an own "common.xbb": different files
+           Sc("m8", <<Rel(<<"lib2">>, "chip2.xbb"), Rel(<<>>, "common.xbb")>>, <<>>),    \* ... that also declare the same program name
+           Sc("m9", <<Rel(<<>>, "common.xbb"), Rel(<<"lib2">>, "chip2.xbb")>>, <<>>) }   \* the opposite order
+GoodItems == { Call("sub", <<I(0), I(1), I(2)>>), Call("sub", <<I(5), I(4), I(7)>>),
+           Call("Common", <<I(6), I(7)>>), Call("chip", <<I(1), I(0), I(3)>>), Call("chip2", <<I(2), I(4)>>), Call("CommonLib", <<I(5)>>),
+           \* template parameters of the including script handed down, also under swapped names
+           CallK("tsub", <<Kw("phi", Par("th")), Kw("th", Par("phi"))>>, <<I(2), I(3)>>),
+           CallK("tsub", <<Kw("phi", Bin("+", Par("th"), I(1))), Kw("th", FL(1, 2))>>, <<I(4), I(1)>>),
            CallK("tsub", <<Kw("phi", FL(1, 4)), Kw("th", I(1))>>, <<I(2), I(3)>>),
            CallK("tsub", <<Kw("th", FL(1, 2)), Kw("phi", Bin("*", Var("v"), I(3)))>>, <<I(1), I(0)>>),
            Call("outer", <<I(6), I(7)>>), Call("inner", <<I(1), I(0)>>), Call("util", <<I(3), I(2)>>),
-           Stmt("G", TRUE, <<I(1)>>, <<>>, <<I(0)>>, "none"), [t |-> "var", ty |-> "float", x |-> "v", e |-> FL(1, 2)],
-           \* ill-formed calls
+           Stmt("G", TRUE, <<I(1)>>, <<>>, <<I(0)>>, "none"), [t |-> "var", ty |-> "float", x |-> "v", e |-> FL(1, 2)] }
+BadCalls == {
+           Call("sub", <<I(0), I(1), I(2), I(2)>>), CallK("tsub", <<Kw("phi", I(1)), Kw("th", I(2))>>, <<I(0), I(1), I(1)>>), Call("Common", <<I(0), I(1), I(1)>>),
            Call("sub", <<I(0), I(1)>>), CallK("sub", <<Kw("a", I(1))>>, <<I(0), I(1), I(2)>>), CallK("sub", <<>>, <<I(0), I(1), I(2)>>),
            Call("tsub", <<I(0), I(1)>>), CallK("tsub", <<Kw("phi", I(1))>>, <<I(0), I(1)>>),
            CallK("tsub", <<Kw("phi", I(1)), Kw("th", I(2)), Kw("x", I(3))>>, <<I(0), I(1)>>), CallK("tsub", <<Kw("phi", I(1)), Kw("th", I(2))>>, <<I(0)>>) }
+Items == GoodItems \cup BadCalls
+FaultMenu == BadCalls \cup {Call("sub", <<I(0), I(1), I(2)>>), [t |-> "var", ty |-> "float", x |-> "v", e |-> FL(1, 2)]}
 
 \* ---- declarative side: the registry of visible programs and textual inlining
 RECURSIVE Registry(_, _, _)
